@@ -414,6 +414,7 @@ def walkProbe (stopAt : Option Int) : Nat → Nat → State → Walk
                 walkProbe stopAt left' (c + 1) (setBegin s3 (c + 1) (b + r.1))
               else .fail oob s3
         else .fail oob r.2
+termination_by structural left => left
 
 /-- Third `while (1)` of SEEK_END: from the last node back to the one that holds
 `r + offset`.  Result: cursor, `r`, `offset`. -/
